@@ -271,7 +271,7 @@ class Layout:
             return ''
         c = ''
         if self.rng.random() < self.comments:
-            c = self.rng.choice([' # ', '# ', '#', '  #']) + self.rng.choice(['note', 'x = 1', 'Y[t] (ignored)', '{a} <b> `c`', 'a ) b', '( open'])
+            c = self.rng.choice([' # ', '# ', '#', '  #']) + self.rng.choice(['note', 'x = 1', 'Y[t] (ignored)', '{a} <b> `c`', 'a ) b', '( open', 'eq. #3 of the paper', '# heading #', 'a # b = c'])
         extra = ''
         if self.rng.random() < self.comments * 0.5:
             extra = self.rng.choice(['\n', '\n   ', '\n# a comment-only line', '\n\t# indented comment'])   # blank / comment-only lines inside the statement
@@ -411,13 +411,13 @@ def render_program(prog, lay=None):
     out = []
     for s in prog.stmts:
         if lay.rng is not None and lay.comments and lay.rng.random() < lay.comments:
-            out.append(lay.rng.choice(['# comment', '', '   ', '#', '# Y = X + 1', '\t']))
+            out.append(lay.rng.choice(['# comment', '', '   ', '#', '# Y = X + 1', '\t', '## Households', '#--- block ---#', '# see #12 and #13']))
         if isinstance(s, Block):
             out.append(render_block(s, 'script'))
         else:
             line = render_eq(s, 'script', lay)
             if lay.rng is not None and lay.comments and lay.rng.random() < lay.comments:
-                line += lay.rng.choice(['  # trailing', ' #', '\t# = + {x}', '# no space before', '#'])
+                line += lay.rng.choice(['  # trailing', ' #', '\t# = + {x}', '# no space before', '#', '  # eq. #3 of the paper', ' ## twice', ' # Z = q # W = r'])
             out.append(line)
     return '\n'.join(out)
 
